@@ -107,6 +107,13 @@ def to_native(doc, ver, clsname, mode, depth=0):
                     import pytz
                     base = base.replace(tzinfo=pytz.utc)        # the very tzinfo object the library's own values carry
                 cons = d.get("constraint", "exact")
+                if mode == "stixdt-foreign":
+                    # a normalised UTC value taken from a slot of ANOTHER precision (identity.created handed to valid_from, a
+                    # first_seen handed to created, ...): its formatting tags are the other slot's and must not survive
+                    import pytz
+                    tags = {"any": ("millisecond", "min"), "millisecond": ("any", "exact"), "second": ("millisecond", "min")}[d.get("precision", "any")]
+                    out[k] = STIXdatetime(base.replace(tzinfo=pytz.utc), precision=tags[0], precision_constraint=tags[1])
+                    continue
                 if mode == "stixdt-other-constraint":
                     # a value taken from a property of the same precision but the other constraint (e.g. a 2.1 created/modified,
                     # millisecond/min, reused for a 2.0 created/modified, millisecond/exact): a normalised, UTC STIXdatetime of another slot
@@ -367,6 +374,7 @@ custom_value = st.one_of(V.mixed_text(2), st.integers(-10, 2 ** 60), st.sampled_
                          st.lists(st.one_of(st.integers(0, 5), st.sampled_from(BOUNDARY_INTS)), min_size=1, max_size=3),
                          st.dictionaries(st.sampled_from(["a", "b_c", "Z"]), st.one_of(st.integers(0, 9), st.sampled_from(BOUNDARY_INTS), st.lists(st.sampled_from(BOUNDARY_INTS), min_size=1, max_size=2)),
                                          min_size=1, max_size=2))
+FREE_DICTS_TOP = ["additional_header_fields", "environment_variables", "ipfix"]
 custom_name = st.sampled_from(["x_foo", "x_bar", "a_custom", "zzz", "x_0", "foo_bar", "x_name", "name_suffix"])
 
 
@@ -482,8 +490,27 @@ def case_strategy(draw):
         case["custom"] = {n: draw(custom_value) for n in draw(st.lists(custom_name, min_size=1, max_size=2, unique=True)) if n not in doc}
         case["toplevel_ext"] = True
         doc.pop("granular_markings", None)
+    if kind == "object" and doc["type"] != "marking-definition" and draw(st.integers(0, 5)) == 0:
+        # echo: an earlier-listed property holds, nested, the same key with an equal value as a later top-level property
+        # (a serializer that orders keys by searching for key/value pairs must still find the top-level one)
+        box = draw(st.sampled_from(FREE_DICTS_TOP))
+        spec = list(M.get(ver).props(M.get(ver).class_for_type(doc["type"])))
+        later = [k for k in spec[spec.index(box) + 1:] if isinstance(doc.get(k), str)] if box in doc and box in spec else []
+        if later and draw(st.booleans()):
+            k = draw(st.sampled_from(later))
+            doc[box] = dict(doc[box], **{k: doc[k]})
+            case["echo"] = "spec"
+        elif not case.get("toplevel_ext"):
+            cust = dict(case.get("custom") or {})
+            k = draw(st.sampled_from(sorted(n for n in cust if n > "a_box") or ["x_echoed"]))
+            cust.setdefault(k, draw(st.one_of(st.integers(0, 9), st.sampled_from(["v", "", False, 0]))))
+            if "a_box" not in doc:
+                inner = {k: cust[k]}
+                cust["a_box"] = draw(st.sampled_from([inner, [inner], {"inner": inner}, {"aaa": 1, "inner": [inner]}]))
+                case["custom"] = cust
+                case["echo"] = "custom"
     if case["source"] == "constructed":
-        case["native"] = draw(st.sampled_from(["naive", "aware", "text", "stixdt-naive", "stixdt-aware", "stixdt-other-constraint"]))
+        case["native"] = draw(st.sampled_from(["naive", "aware", "text", "stixdt-naive", "stixdt-aware", "stixdt-other-constraint", "stixdt-foreign"]))
         m = M.get(ver)
         cname = m.class_for_type(doc["type"]) if doc["type"] != "bundle" else "Bundle"
         droppable = [k for k in ("created", "modified", "id", "valid_from", "spec_version") if k in doc and k in m.props(cname)]
@@ -509,6 +536,8 @@ def classes_of(case):
         cl.append("custom:toplevel-ext" if case.get("toplevel_ext") else "custom:properties")
     if case.get("drop"):
         cl.append("defaults-from-clock")
+    if case.get("echo"):
+        cl.append("echo:" + case["echo"])
     if case.get("native"):
         cl.append("native:" + case["native"])
     cl.extend(sorted(G.features(doc)))
